@@ -72,6 +72,17 @@ CHECKS = {
         note=("programs x option states are sampled (TLC -simulate derivations x random option states), not the full product; one "
               "recorded finding (serialiser rewrites line ends inside multi-line tokens) is a dedicated clause of the trace spec"),
         technique='TLA+ option/filter-stack model (TLC exhaustive) + TLA+ grammar-generated programs + TLC trace validation per stage'),
+    'C07': dict(
+        category='model_checking',
+        text=("Pipeline.tla models FilterStack.run and its callers (which exception kinds can leave an entry point; an invalid option is "
+              "rejected before lexing) and is checked by TLC; Options.tla with BAD / out-of-range representatives supplies invalid and "
+              "valid option states. Mutated SqlGen programs (drop/duplicate/swap/insert a token), ScriptGen junk sequences, TLC delimiter "
+              "sequences, short class strings and random Unicode go through parse (then every read-only accessor on every node), split "
+              "(both modes) and format x option states; TLC (TracePipeline.tla) decides every call: outcome in {ok, SQLParseError}, no "
+              "accessor raises, invalid options rejected before any lexing."),
+        design_ref='DESIGN.md §5 C07',
+        note='documented options only (right_margin excluded: undocumented stub); inputs x options sampled',
+        technique='TLA+ pipeline/option models (TLC) + TLA+-generated inputs and option states replayed + TLC validation of outcomes'),
     'C08': dict(
         category='model_checking',
         text=("TLC computes, per recorded format() run, the token sequence the targeted filters must produce (TraceFormat.tla: "
@@ -129,6 +140,17 @@ CHECKS = {
         design_ref='DESIGN.md §5 C13',
         note='whitespace-only gaps (comments inside clauses are outside C13); one class-level recorded finding',
         technique='TLA+ grammar with structure annotations (TLC-generated programs) + TLC validation of node extents and accessors'),
+    'C15': dict(
+        category='fault_enumeration',
+        text=("Pipeline.tla says where a RecursionError can arise and that it is always translated (TLC, all entry points x stages); "
+              "its fault points are realised on the code: RecursionError is injected at the k-th call of each of 22 recursive routines "
+              "(grouping passes, every filter, serialiser) for 9 entry points/option sets - outcome must be SQLParseError when the fault "
+              "was reached and later calls must give pristine results. Real depth: 10 nesting constructs x depths up to 1000 (thorough: "
+              "10000) x recursion limits x entry points in subprocesses (exit status, outcome, later call, iterative round-trip check). "
+              "TLC (TracePipeline.tla) decides every case."),
+        design_ref='DESIGN.md §5 C15',
+        note='C-level stack exhaustion is visible only as subprocess exit status; a per-case timeout counts as not explored',
+        technique='TLA+ pipeline model (TLC) + fault enumeration on real callables + deep-nesting subprocess runs validated by TLC'),
     'C17': dict(
         category='model_checking',
         text=("Same lock-step composition with the procedural constructs of ScriptGen.tla (CREATE header, DECLARE, nested BEGIN, IF, "
